@@ -767,8 +767,74 @@ impl<'r> ProgGen<'r> {
             12 => self.closure_create(env),
             13 => self.closure_call(env),
             14 => vec![CardBody::Comment("note".into()).into()],
-            _ => self.assign_stmt(env),
+            _ => self.std_stmt(env),
         }
+    }
+
+    /// a standard-library call on a table variable, result logged or stored
+    fn std_stmt(&mut self, env: &mut Env) -> Vec<Card> {
+        let tabs = env.vars_of(&Ty::Table);
+        if tabs.is_empty() || env.closure_depth > 0 {
+            return self.assign_stmt(env);
+        }
+        let t = self.rng.pick(&tabs).clone();
+        let f = *self.rng.pick(&["filter", "map", "any", "min", "max", "sorted", "to_array", "min_by_key", "max_by_key", "sorted_by_key"]);
+        let mut inner = Env {
+            scopes: vec![vec![]],
+            captured: env.visible().into_iter().filter(|(n, _)| n != "_").collect(),
+            in_main: false,
+            fn_index: usize::MAX / 2,
+            no_new_locals: false,
+            frozen: {
+                let mut fr = env.frozen.clone();
+                fr.push(t.clone());
+                fr
+            },
+            ret: Ty::Int,
+            loop_depth: 2,
+            closure_depth: 2,
+            while_counters: 50,
+        };
+        let callc = match f {
+            "min" | "max" | "sorted" | "to_array" => call(&format!("std.{f}"), vec![read(&t)]),
+            "filter" | "map" | "any" => {
+                // callback(key, value[, index])
+                let three = self.rng.chance(1, 2);
+                let params: Vec<&str> = if three { vec!["ck", "cv", "ci"] } else { vec!["ck", "cv"] };
+                for p in &params {
+                    inner.declare(p, Ty::Any);
+                }
+                let body = match self.rng.below(5) {
+                    0 => read("cv"),
+                    1 => bin("less", read("cv"), self.expr(&inner, &Ty::Int, 1)),
+                    2 => native("concat", vec![read("ck"), read("cv")]),
+                    3 => bin("add", read("cv"), int(1)),
+                    _ => self.expr(&inner, &Ty::Any, 2),
+                };
+                call(&format!("std.{f}"), vec![closure(&params, vec![un("ret", body)]), read(&t)])
+            }
+            _ => {
+                // key function (key, value)
+                inner.declare("ck", Ty::Any);
+                inner.declare("cv", Ty::Any);
+                let body = match self.rng.below(5) {
+                    0 => read("cv"),
+                    1 => read("ck"),
+                    2 => bin("sub", int(0), read("cv")),
+                    3 => un("len", native("concat", vec![read("cv"), read("ck")])),
+                    _ => bin("mul", read("cv"), int(2)),
+                };
+                call(&format!("std.{f}"), vec![closure(&["ck", "cv"], vec![un("ret", body)]), read(&t)])
+            }
+        };
+        if !env.no_new_locals && self.rng.chance(1, 2) {
+            if let Some(name) = self.fresh_local(env) {
+                let ty = if matches!(f, "filter" | "map" | "sorted" | "to_array" | "sorted_by_key") { Ty::Table } else { Ty::Any };
+                env.declare(&name, ty);
+                return vec![set(&name, callc), discard(native("log1", vec![read(&name)]))];
+            }
+        }
+        vec![discard(native("log1", vec![callc]))]
     }
 
     fn nested_block(&mut self, env: &mut Env, n: usize) -> Card {
